@@ -242,11 +242,44 @@ def run_triple(case):
     return {'nt': len(set(o['cls'] for o in case['ops'])) > 1 and len(bits[0]) > 0, 'labels': case['rels']}
 
 
+@st.composite
+def big_eq_case(draw, tier):
+    from vf.common import big_bits_st
+    spec = draw(big_bits_st())
+    n = spec['n']
+    flip = draw(st.sampled_from([None, None, 0, n - 1, n // 2, 799, 800, 801, n - 800, n - 801, 65536, n - 65537]))
+    return {'spec': spec, 'flip': flip, 'cx': draw(cls_st), 'cy': draw(cls_st), 'rx': draw(st.sampled_from(['bin', 'bytes_offset', 'file_length_limited', 'file_offset', 'concat', 'file_name_full'])),
+            'ry': draw(st.sampled_from(['bin', 'bitarray', 'file_length_limited', 'slice_of_longer', 'file_handle_full']))}
+
+
+def run_big_eq(case):
+    from vf.common import expand_bits
+    a = expand_bits(case['spec'])
+    b = a
+    f = case['flip']
+    if f is not None and 0 <= f < len(a):
+        b = a[:f] + ('1' if a[f] == '0' else '0') + a[f + 1:]
+    with files.TempDir() as tmp:
+        x = build({'cls': case['cx'], 'bits': a, 'route': case['rx'], 'salt': 3, 'pos': 0}, tmp)
+        y = build({'cls': case['cy'], 'bits': b, 'route': case['ry'], 'salt': 5, 'pos': 0}, tmp)
+        exp = a == b
+        require((x == y) is exp and (y == x) is exp and (x != y) is (not exp), '== / != on megabit operands disagrees with the model', n=len(a), flip=f, rx=case['rx'], ry=case['ry'])
+        if case['cx'] in IMMUTABLE and case['cy'] in IMMUTABLE:
+            hx, hy = hash(x), hash(y)
+            if exp:
+                require(hx == hy and y in {x}, 'equal megabit bitstrings hash differently', n=len(a), rx=case['rx'], ry=case['ry'])
+            else:
+                require(y not in {x: 1}, 'unequal megabit bitstring found as dict key', n=len(a), flip=f)
+        del x, y
+    return {'nt': True, 'labels': ['equal' if exp else 'flip@%s' % f, case['rx'], case['ry']]}
+
+
 SUBCHECKS = [
     Sub('C13.eq_model', run_eq, strategy=eq_case, ambient=('bytealigned', 'lsb0'), examples={'quick': 10000, 'thorough': 150000}),
     Sub('C13.eq_promotable', run_promo, strategy=promo_case, ambient=('bytealigned', 'lsb0'), examples={'quick': 8000, 'thorough': 100000}),
     Sub('C13.eq_nonpromotable', run_nonpromo, strategy=nonpromo_case, ambient=('bytealigned', 'lsb0'), examples={'quick': 3000, 'thorough': 30000}),
     Sub('C13.hash_consistent', run_hash, strategy=hash_case, ambient=('bytealigned', 'lsb0'), examples={'quick': 8000, 'thorough': 100000}),
+    Sub('C13.big_operands', run_big_eq, strategy=big_eq_case, examples={'quick': 200, 'thorough': 3000}),
     Sub('C13.unhashable', run_unhash, strategy=unhash_case, ambient=('bytealigned', 'lsb0'), examples={'quick': 600, 'thorough': 5000}),
     Sub('C13.triples', run_triple, strategy=triple_case, ambient=('bytealigned', 'lsb0'), examples={'quick': 5000, 'thorough': 60000}),
 ]
